@@ -128,7 +128,8 @@ fn name_lines(rng: &mut Rng) -> Vec<String> {
     }
     // white space other than the blank is not a separator: it belongs to the token it touches
     for l in ["move r1 5\tjunk", "step\tfoo bar", "break add x20\tx21", "goto x20\t# c", "move r1 5\u{a0}junk", "print r1\u{a0}", "move\tr1 5", "move r1\t5",
-              "step\t", "\tstep", "r\t", "break\tadd x20", "step into\t2", "move r1 5 \t", "print r1\u{3000}x"] {
+              "step\t", "\tstep", "r\t", "break\tadd x20", "step into\t2", "move r1 5 \t", "print r1\u{3000}x",
+              "move \tr1 \t#23", "break add \u{a0}x20", "print \tr1", "goto \u{3000}x20", "step into \t2", "move r1 \t5", " \tstep", "echo \tx"] {
         out.push(l.to_string());
     }
     // very long argument lists
